@@ -20,6 +20,10 @@ package flags
 //@ ensures[C14] isNil(result0) ==> forall j int :: len(f.LHS) <= j && j < len(value)-len(f.RHS)-len(f.Comparator) ==> (value[j] == 32 || value[j] == 9 || value[j] == 10 || value[j] == 12 || value[j] == 13)
 //@ ensures[C14] isNil(result0) ==> len(f.LHS) >= 1 && len(f.Comparator) >= 1 && len(f.RHS) >= 1
 //@ ensures[C14] isNil(result0) ==> f.Type == rule.ValueFilterType
+// The operator is one of the eight, and it is the two-character one whenever
+// that leaves a value: "a1&=3" is a1 &= 3, never a1 & "=3".
+//@ ensures[C14] isNil(result0) ==> f.Comparator == "<=" || f.Comparator == ">=" || f.Comparator == "&=" || f.Comparator == "=" || f.Comparator == "!=" || f.Comparator == "<" || f.Comparator == ">" || f.Comparator == "&"
+//@ ensures[C14] isNil(result0) && (f.Comparator == "<" || f.Comparator == ">" || f.Comparator == "&") && f.RHS[0] == '=' ==> len(f.RHS) == 1
 //
 // -C: same shape.
 //@ func (*rule/flags.interFieldFilter).Set
@@ -31,6 +35,7 @@ package flags
 //@ ensures[C14] isNil(result0) ==> forall j int :: len(f.LHS) <= j && j < len(value)-len(f.RHS)-len(f.Comparator) ==> (value[j] == 32 || value[j] == 9 || value[j] == 10 || value[j] == 12 || value[j] == 13)
 //@ ensures[C14] isNil(result0) ==> len(f.LHS) >= 1 && len(f.Comparator) >= 1 && len(f.RHS) >= 1
 //@ ensures[C14] isNil(result0) ==> f.Type == rule.InterFieldFilterType
+//@ ensures[C14] isNil(result0) ==> f.Comparator == "=" || f.Comparator == "!="
 //
 // Each -F / -C argument contributes exactly one filter, appended after the
 // ones already collected; a rejected argument contributes none.
